@@ -70,4 +70,8 @@ CHECKS = {
   "text": "GBNChunk.tla models Send's splitting and Recv's reassembly over the reliable packet FIFO established by C01, with deadlines able to fire between any two packets; TLC checks OneSendOneRecv/AllDelivered for all payload lengths 0..5, chunk sizes off/1/2/3 and sequences; real connections are driven with every length 0..3M+1 for every small chunk size, boundary and large payloads, mixed sequences under drop/duplicate/delay, and send/receive deadlines expiring at every packet boundary (call retried); TLC validates the Send/Recv call log (length + content hash). The send-deadline case is an open known finding.",
   "note": "packet channel below assumed exactly-once/ordered (C01); content compared by length and a 31-bit SHA-256 prefix",
  },
+ "C10": {
+  "text": "GBNHandshake.tla models clientHandshake/serverHandshake (timeouts, resent flag, restart on SYN, completion on SYNACK or DATA after a restart, failure on unexpected packets, rejection of window 255) over lossy/duplicating FIFO channels that may start with stale packets; TLC checks AgreeN, SrvNProposed, termination for all interleavings of small fault budgets and nine stale prefixes, and convergence under fairness; real handshakes run under virtual time for every pattern of up to three drops/duplicates over the first packets of each direction, stale packets of every type in either direction, several windows and start orders, followed by a message each way, and the traces (wire events, hooks at every examined packet and timeout, results, adopted windows) are validated against the specification.",
+  "note": "stale packets are a prefix of the channels; a left-over handshake packet reaching an endpoint already in the data phase ends that connection visibly, so data flow is required only when none is left; a side still in its handshake when the harness gives up (40 virtual s) is not judged",
+ },
 }
